@@ -15,10 +15,10 @@ type RunOpts struct {
 	Jobs     int
 	KeepDir  string
 	Verbose  bool
-	Hints    *HintDB // nil: no hints
-	Record   bool    // record unsat cores of obligations that needed the full query
-	Cross    int     // thorough tier: also run the FULL query of every hint-discharged obligation for this many seconds
-	Fresh    bool    // thorough tier: vacuity guards are re-run, not taken from the record
+	Hints    *HintDB         // nil: no hints
+	Record   bool            // record unsat cores of obligations that needed the full query
+	Cross    int             // thorough tier: also run the FULL query of every hint-discharged obligation for this many seconds
+	Fresh    bool            // thorough tier: vacuity guards are re-run, not taken from the record
 	Short    map[string]bool // obligations listed as known findings: expected not to discharge, tried for 10 s only
 }
 
